@@ -15,6 +15,14 @@ API used by other families (C18 imports this file and `Model/ConjEn`, `Model/Con
 namespace Pyrealb.Conj
 open Pyrealb
 
+/-- decidable equality of results (`Except` has none in core); used by `decide` in `Props/C01` -/
+instance instDecEqExcept {ε α} [DecidableEq ε] [DecidableEq α] : DecidableEq (Except ε α) := fun a b =>
+  match a, b with
+  | .ok x, .ok y => if h : x = y then isTrue (by rw [h]) else isFalse (by intro e; cases e; exact h rfl)
+  | .error x, .error y => if h : x = y then isTrue (by rw [h]) else isFalse (by intro e; cases e; exact h rfl)
+  | .ok _, .error _ => isFalse (by intro e; cases e)
+  | .error _, .ok _ => isFalse (by intro e; cases e)
+
 /-- value of `rules.conjugation[tab]["t"][tense]` -/
 inductive Row where
   /-- JSON `null` -/
@@ -132,8 +140,8 @@ def setLemma (rules : Rules) (lemma : Str) (entry : Option Verb) : VState :=
         { lemma := lemma, tab := some v.tab, stem := dropRight lemma tb.ending.length, warns := 0 }
       else { lemma := lemma, tab := none, stem := [], warns := 1 }           -- "bad lexicon table"
     | none =>
-      -- `ending=""` + warning "bad lexicon table"; `lemma.endswith("")` holds, so `tab` is KEPT (line 150-151)
-      { lemma := lemma, tab := some v.tab, stem := lemma, warns := 1 }
+      -- unknown table: `ending=None`, so `self.tab=None` and one warning "bad lexicon table" (commit 466e9e2)
+      { lemma := lemma, tab := none, stem := [], warns := 1 }
 
 /-! ### output of `conjugate` and of `realize` -/
 
